@@ -577,8 +577,8 @@ let set_side b h =
 (** val hdr_new : bool -> hdr **)
 
 let hdr_new already_finalized =
-  { h_rc = (Npos XH); h_tc = N0; h_mark = NM; h_fin = already_finalized;
-    h_side = false }
+  { h_rc = (Npos XH); h_tc = (Npos XH); h_mark = NM; h_fin =
+    already_finalized; h_side = false }
 
 (** val inc_rc : hdr -> hdr option **)
 
@@ -3907,16 +3907,74 @@ let rec run k p fuel c m =
               | ONormal -> run k p n0 (KCollectLoop k') m0
               | _ -> (m0, r))))
      | KCollectOnce ->
-       let (m0, pr) = trace_pass k p m in
+       let old_f = m.st_finalizing in
+       let old_d = m.st_dropping in
+       let (m0, pr) =
+         trace_pass k p
+           (set (fun m0 -> m0.st_dropping) (fun f ->
+             let b = fun r -> f r.st_dropping in
+             (fun x -> { heap = x.heap; pc = x.pc; pc_size = x.pc_size;
+             pc_alive = x.pc_alive; st_collecting = x.st_collecting;
+             st_finalizing = x.st_finalizing; st_dropping = (b x); st_alloc =
+             x.st_alloc; st_exec = x.st_exec; cf_thr = x.cf_thr; cf_pnum =
+             x.cf_pnum; cf_pexp = x.cf_pexp; cf_buf = x.cf_buf; cf_auto =
+             x.cf_auto; slots = x.slots; wslots = x.wslots; cslots =
+             x.cslots; values = x.values; bag = x.bag; wparam = x.wparam;
+             fuse_trace = x.fuse_trace; fuse_fin = x.fuse_fin; fuse_drop =
+             x.fuse_drop; fuse_action = x.fuse_action; fuse_closure =
+             x.fuse_closure; panicking = x.panicking; next_aid = x.next_aid;
+             log = x.log })) (fun _ -> false)
+             (set (fun m0 -> m0.st_finalizing) (fun f ->
+               let b = fun r -> f r.st_finalizing in
+               (fun x -> { heap = x.heap; pc = x.pc; pc_size = x.pc_size;
+               pc_alive = x.pc_alive; st_collecting = x.st_collecting;
+               st_finalizing = (b x); st_dropping = x.st_dropping; st_alloc =
+               x.st_alloc; st_exec = x.st_exec; cf_thr = x.cf_thr; cf_pnum =
+               x.cf_pnum; cf_pexp = x.cf_pexp; cf_buf = x.cf_buf; cf_auto =
+               x.cf_auto; slots = x.slots; wslots = x.wslots; cslots =
+               x.cslots; values = x.values; bag = x.bag; wparam = x.wparam;
+               fuse_trace = x.fuse_trace; fuse_fin = x.fuse_fin; fuse_drop =
+               x.fuse_drop; fuse_action = x.fuse_action; fuse_closure =
+               x.fuse_closure; panicking = x.panicking; next_aid =
+               x.next_aid; log = x.log })) (fun _ -> false) m))
+       in
+       let m1 =
+         set (fun m1 -> m1.st_dropping) (fun f ->
+           let b = fun r -> f r.st_dropping in
+           (fun x -> { heap = x.heap; pc = x.pc; pc_size = x.pc_size;
+           pc_alive = x.pc_alive; st_collecting = x.st_collecting;
+           st_finalizing = x.st_finalizing; st_dropping = (b x); st_alloc =
+           x.st_alloc; st_exec = x.st_exec; cf_thr = x.cf_thr; cf_pnum =
+           x.cf_pnum; cf_pexp = x.cf_pexp; cf_buf = x.cf_buf; cf_auto =
+           x.cf_auto; slots = x.slots; wslots = x.wslots; cslots = x.cslots;
+           values = x.values; bag = x.bag; wparam = x.wparam; fuse_trace =
+           x.fuse_trace; fuse_fin = x.fuse_fin; fuse_drop = x.fuse_drop;
+           fuse_action = x.fuse_action; fuse_closure = x.fuse_closure;
+           panicking = x.panicking; next_aid = x.next_aid; log = x.log }))
+           (fun _ -> old_d)
+           (set (fun m1 -> m1.st_finalizing) (fun f ->
+             let b = fun r -> f r.st_finalizing in
+             (fun x -> { heap = x.heap; pc = x.pc; pc_size = x.pc_size;
+             pc_alive = x.pc_alive; st_collecting = x.st_collecting;
+             st_finalizing = (b x); st_dropping = x.st_dropping; st_alloc =
+             x.st_alloc; st_exec = x.st_exec; cf_thr = x.cf_thr; cf_pnum =
+             x.cf_pnum; cf_pexp = x.cf_pexp; cf_buf = x.cf_buf; cf_auto =
+             x.cf_auto; slots = x.slots; wslots = x.wslots; cslots =
+             x.cslots; values = x.values; bag = x.bag; wparam = x.wparam;
+             fuse_trace = x.fuse_trace; fuse_fin = x.fuse_fin; fuse_drop =
+             x.fuse_drop; fuse_action = x.fuse_action; fuse_closure =
+             x.fuse_closure; panicking = x.panicking; next_aid = x.next_aid;
+             log = x.log })) (fun _ -> old_f) m0)
+       in
        (match pr with
         | PDone l ->
           (match l with
-           | [] -> (m0, ONormal)
+           | [] -> (m1, ONormal)
            | _ :: _ ->
              if k.k_fin
-             then let old_f = m0.st_finalizing in
-                  run k p n0 (KFinalizeList (l, l, false, old_f))
-                    (set (fun m1 -> m1.st_finalizing) (fun f ->
+             then let old_f0 = m1.st_finalizing in
+                  run k p n0 (KFinalizeList (l, l, false, old_f0))
+                    (set (fun m2 -> m2.st_finalizing) (fun f ->
                       let b = fun r -> f r.st_finalizing in
                       (fun x -> { heap = x.heap; pc = x.pc; pc_size =
                       x.pc_size; pc_alive = x.pc_alive; st_collecting =
@@ -3930,10 +3988,10 @@ let rec run k p fuel c m =
                       x.fuse_fin; fuse_drop = x.fuse_drop; fuse_action =
                       x.fuse_action; fuse_closure = x.fuse_closure;
                       panicking = x.panicking; next_aid = x.next_aid; log =
-                      x.log })) (fun _ -> true) m0)
-             else let old_d = m0.st_dropping in
-                  run k p n0 (KDropList (l, l, old_d))
-                    (set (fun m1 -> m1.st_dropping) (fun f ->
+                      x.log })) (fun _ -> true) m1)
+             else let old_d0 = m1.st_dropping in
+                  run k p n0 (KDropList (l, l, old_d0))
+                    (set (fun m2 -> m2.st_dropping) (fun f ->
                       let b = fun r -> f r.st_dropping in
                       (fun x -> { heap = x.heap; pc = x.pc; pc_size =
                       x.pc_size; pc_alive = x.pc_alive; st_collecting =
@@ -3947,9 +4005,9 @@ let rec run k p fuel c m =
                       x.fuse_fin; fuse_drop = x.fuse_drop; fuse_action =
                       x.fuse_action; fuse_closure = x.fuse_closure;
                       panicking = x.panicking; next_aid = x.next_aid; log =
-                      x.log })) (fun _ -> true) m0))
-        | PPanicked -> (m0, (raise m0))
-        | PFuel -> ((emit_bad Fuel O m0), OFuel))
+                      x.log })) (fun _ -> true) m1))
+        | PPanicked -> (m1, (raise m1))
+        | PFuel -> ((emit_bad Fuel O m1), OFuel))
      | KFinalizeList (l, rest, any, old_f) ->
        (match rest with
         | [] ->
